@@ -119,6 +119,32 @@ def graph_placements(sbs, out):
             ("./lnk_g", ("proj/lnk_g", "../elsewhere/greal")), out.rstrip("/") + "/graphs", out]
 
 
+# symbolic links inside what a run copies (media_dir, copy_subdir directories, page files): absolute
+# and relative with enough '..', to files and to directories outside the output directory, dangling
+# with an existing parent directory (touch() through such a link would create the file), cycles
+LINKS_IN_COPIED = [
+    (("proj/media/lnk_abs", "@SB@/other/keep.txt"), False),
+    (("proj/media/m2/lnk_rel", "../../../other/deep/keep2.bin"), False),
+    (("proj/media/lnk_dangling", "../build/manual.pdf"), True),
+    (("proj/media/lnk_dir", "../../other/deep"), False),
+    (("proj/media/lnk_notes", "../notes.txt"), False),
+    (("proj/pages/sub/data/lnk_file", "../../../../other/keep.txt"), False),
+    (("proj/pages/sub/data/deep/lnk_dangling", "@SB@/proj/build/missing.bin"), True),
+    (("proj/pages/sub/data/lnk_dir", "../../../../other"), False),
+    (("proj/pages/img/lnk_src", "../../src/m.f90"), False),
+    (("proj/pages/piclink.png", "../../other/keep.txt"), False),
+]
+LINK_CYCLES = [("proj/media/m2/loop", ".."), ("proj/pages/sub/data/deep/up", "../..")]
+
+
+def link_set(rng):
+    chosen = [x for x in LINKS_IN_COPIED if rng.random() < 0.5]
+    links = [l for l, _ in chosen]
+    if rng.random() < 0.12:
+        links.append(rng.choice(LINK_CYCLES))
+    return links, any(b for _, b in chosen)
+
+
 def gen_fortran(rng):
     proj = G.gen_project(rng, {"nfiles": rng.choice([1, 2, 3]), "dirs": ["src", "src/sub"]})
     return G.render_project(proj)
@@ -177,6 +203,12 @@ def gen_scenario(rng, sbs, placement, simple=False):
         opts["graph"] = "true" if flip(0.2) else "false"
     if flip(0.2):
         opts["exclude_dir"] = ["./src/skip"]
+    dirs = list(dirs)
+    if not refuse and flip(0.6):
+        more, need_build = link_set(rng)
+        links += more
+        if need_build:
+            dirs.append("proj/build")
     fortran = None if (simple or flip(0.6)) else gen_fortran(rng)
     return {"name": name, "opts": opts, "links": links, "extra": dict(extra), "dirs": list(dirs),
             "refuse": refuse, "topmeta": topmeta, "submeta": submeta, "fortran": fortran, "cli": {}}
